@@ -1,9 +1,9 @@
-From Tetl Require Import Lib.Base C08.Model C08.Spec C04.Model C04.ModelQ C04.Spec C04.SpecQ C04.PreDoc.
+From Tetl Require Import Lib.Base C08.Model C08.Spec C04.Model C04.ModelQ C04.Spec C04.SpecQ C04.PreDoc C04.ModelAlias.
 Require Extraction.
 Require Import ExtrOcamlBasic.
 Extraction Language OCaml.
 Extraction "C04_model.ml" wire_anchor
-  mkstr mkview default_str ctor_ptr ctor_fill get_size contents terminator step run swap_m other_str replace_m replace_ptr_m replace_cstr_m replace5_m replace_it_m replace_it_fill_m returned_pos returned_count pred_of self_src append_range_cat_m ctor_range_m pre_doc
+  mkstr mkview default_str ctor_ptr ctor_fill get_size contents terminator step run swap_m other_str replace_m replace_ptr_m replace_cstr_m replace5_m replace_it_m replace_it_fill_m returned_pos returned_count pred_of self_src append_range_cat_m ctor_range_m pre_doc append_self_m insert_self_m push_back_self_loop
   view_of str_find_m str_rfind_m str_find_first_of_m str_find_first_not_of_m str_find_last_of_m
   str_find_last_not_of_m str_rfind_default_m str_find_last_of_default_m str_find_last_not_of_default_m
   str_compare_m str_compare5_m copy_m
